@@ -208,3 +208,25 @@ func sprint(v interface{}) string { return fmt.Sprint(v) }
 // Monitor reads an engine monitor counter (e.g. "db-write-during-tx"). The native
 // run-time has no monitors and reports 0.
 func Monitor(name string) int { return 0 }
+
+// AndB / OrB / NotB: boolean connectives that do not short-circuit, so oracle code
+// written with them does not fork the symbolic path. Natively plain &&, ||, !.
+func AndB(a, b bool) bool { return a && b }
+func OrB(a, b bool) bool  { return a || b }
+func NotB(a bool) bool    { return !a }
+
+// IteU64 selects without branching.
+func IteU64(c bool, a, b uint64) uint64 {
+	if c {
+		return a
+	}
+	return b
+}
+
+// IteI64 selects without branching.
+func IteI64(c bool, a, b int64) int64 {
+	if c {
+		return a
+	}
+	return b
+}
